@@ -8,14 +8,33 @@ NOTE_COMMON = ("Trusted: Coq 8.16.1 kernel (vm_compute used, native_compute not)
                "the Go harness; no axioms (Print Assumptions: closed under the global context). ")
 
 # id -> (technique, level text, level note, design ref)
+NOTE_CRYPTO = ("Cryptographic primitives are an arbitrary record argument `c : crypto`; round-trip theorems assume only `crypto_ok c` (functional correctness of SHA-512/HMAC/XSalsa20-Poly1305/X25519/Ed25519, satisfiable: proved for a toy instance), authenticity theorems assume only that SHA-512 outputs have 64 bytes and conclude `authentic \\/ explicit break witness`; infeasibility of such witnesses is NaCl's assumption and is NOT established. go-codec's MessagePack behaviour is modelled (coq/model/Msgpack.v) and tied by the campaign; inputs outside the modelled subset are counted as unmodelled and not compared. ")
+RT = "Coq proof by induction over the packet plan (MessagePack round trip, chunker shape, crypto_ok) + byte-exact differential correspondence with pinned randomness + round-trip oracles on /repo"
+AUTH = "Coq reduction proof (any input, any primitives: authentic or explicit forgery/collision witness) + structure-aware mutation and spec-aware forgery campaign against /repo with ground-truth oracle"
 CLAIMED = {
+ "C01": (RT,
+         "Theorems (props/C01.v): the sender is checks + draws (shuffle, ephemeral secret, payload key) + seal_core on a permutation of the recipients; for every plaintext/Write split, V1/V2, named/anonymous sender, pairwise distinct recipients, EVERY position and visibility, the holder of that key opens the message (stream and all-at-once, both shipped validators) to exactly the plaintext, sender key or anonymous flag, its own key and hidden flag, or another recipient's payload-key box of that very message opens under its shared key (concrete NaCl break); strangers get ErrNoDecryptionKey; streaming = one-shot sender. Campaign: emitted bytes and randomness consumption equal the extracted model's byte for byte (incl. k MiB +-1), every recipient and a stranger open the real output.",
+         NOTE_COMMON + NOTE_CRYPTO + "Side condition: encoded header < 4 GiB (discharged for <= 40,000,000 recipients with <= 32-byte keys). Keys are harness keys built on package basic; armored entry points are covered by C11/C13 campaigns, not by these theorems.",
+         "DESIGN.md section 5 C01"),
+ "C05": (RT,
+         "Theorems (props/C05.v): for every message and Write split, V1/V2, key and randomness stream, Sign's output verifies (stream and all-at-once, both validators) to exactly the message and signer, consuming exactly the 16 nonce bytes; a keyring not knowing the signer gets ErrNoSenderKey and no bytes; streaming = one-shot signer. Campaign: emitted bytes equal the model's byte for byte (incl. 1 MiB +-1), Verify/stream-verify (one-byte reader) round trip and unknown-signer checks on /repo.",
+         NOTE_COMMON + NOTE_CRYPTO + "Armored forms are covered by the C11/C13 campaigns.",
+         "DESIGN.md section 5 C05"),
+ "C06": (AUTH,
+         "Theorem (props/C06.v): for EVERY input byte string (< 2^64 bytes), every keyring and shipped validator, if the attached-signature verifier returns key pk and releases chunks, then either nothing was released and the stream did not end cleanly, or the released chunks are a prefix of the chunks of ONE attached message in pk's honest history (any spec-following chunking, fresh header nonces) and a clean end happens only after all of them, or the input yields a signature that verifies on a string pk never signed / two different strings with equal SHA-512 (domain separation between attached, detached and signcryption signature inputs is proved). Campaign: ~500 (quick) mutated and spliced messages incl. detached-as-attached; model = /repo on signer, released bytes, error class; ground-truth prefix oracle.",
+         NOTE_COMMON + NOTE_CRYPTO + "The break disjunct is an existence statement; the proof constructs the witness from the input, but that it is infeasible to produce is assumed, not proved.",
+         "DESIGN.md section 5 C06"),
+ "C07": (RT + "; " + AUTH,
+         "Theorems (props/C07.v): detached round trip (both versions, both validators); attached presented as detached and detached presented as attached are refused (ErrWrongMessageType) whatever the keyring; authenticity reduction: VerifyDetached succeeds only for exactly the (message, header) pair the key signed in detached mode, or forgery/collision witness. Campaign: every kind of message/signature mutation, header transplants between signatures by the same key, fragmenting data-with-EOF reader for VerifyDetachedReader.",
+         NOTE_COMMON + NOTE_CRYPTO + "Trailing bytes after the signature object are ignored by the code and by the model (not part of the property).",
+         "DESIGN.md section 5 C07"),
  "C10": ("Coq proof (induction over blocks, positional-numeral inversion) + exhaustive/differential correspondence of the extracted model with encoding/basex",
          "Machine-checked theorems over the Gallina model of encoding/basex: encodeBlock is fixed-width positional base conversion, decode(encode x)=x for every byte string, strict decoding accepts only canonical strings (non-minimal lengths, foreign characters and overflowing values rejected), skip characters are exactly deletable, length helper = encoder output length. The model is the extracted code the harness runs against the Go package on every run (all 1-byte blocks, all short strings, every length 0..4*blocklen+1, mutated encodings).",
-         NOTE_COMMON + "Go float64/math.Log2 length formulas are not modelled; they are compared exhaustively on the domain the code evaluates them on. math/big is trusted.",
+         NOTE_COMMON + "Go float64/math.Log2 length formulas are not modelled; they are compared exhaustively on the domain the code evaluates them on. math/big is trusted. Streaming encoder/decoder: see C13.",
          "DESIGN.md section 5 C10"),
  "C19": ("Coq proof (explicit bijections for Lemire rejection sampling and Fisher-Yates) + differential correspondence on the verif-tag hooks",
          "Machine-checked theorems over the Gallina model of rand.go: the two-stage rejection test equals low < 2^32 mod n; (k,t) -> ceil((k*2^32+thresh)/n)+t is a bijection from [0,n) x [0,floor(2^32/n)) onto the accepted 32-bit draws with output k (exact uniformity for every n < 2^32); the shuffle is Fisher-Yates on the accepted draws, which is a bijection from draw sequences onto all arrangements (permutation, surjective, injective), whatever the caller's order. The extracted model is run against csprngUint32n/csprngShuffle (exported under -tags verif) on boundary source values and on every draw sequence for n<=6.",
-         NOTE_COMMON + "Identity-hiding clause (key bytes absent from the wire) is checked by the C19 campaign on real Seal/SigncryptSeal output once the encryption model is in place; secrecy of ciphertexts is NaCl's assumption.",
+         NOTE_COMMON + "Identity-hiding clause: checked on every sealed message by the C01/C03 campaigns' wire oracles (sender key and hidden/box recipients' keys absent from the bytes, visible recipients exactly once); secrecy of ciphertexts is NaCl's assumption.",
          "DESIGN.md section 5 C19"),
 }
 
